@@ -52,6 +52,7 @@ FINDING_B = "C26-B-prefixed-computation-not-orphaned"
 AGENTS = ["a1", "a2", "a3", "a4", "a5"]
 COMPS = ["c1", "c2", "c3", "c4", "c5", "c6"]
 ODD_COMPS = ["Bx", "_t1", "B2"]
+SUBSTR_COMPS = ["c1", "c10", "c101", "c2", "c21", "c"]
 
 
 # ------------------------------------------------------------------ generation
@@ -61,6 +62,8 @@ def _state(rng, odd):
     comps = COMPS[:ncomp]
     if odd:
         comps = comps[:max(1, ncomp - 1)] + [rng.choice(ODD_COMPS)]
+    elif ncomp >= 2 and rng.random() < 0.15:
+        comps = SUBSTR_COMPS[:ncomp]          # names that are substrings of each other (c1 / c10 / c101)
     rng.shuffle(comps)
     host = [[c, rng.choice(agents)] for c in comps]
     hostd = dict(host)
@@ -262,7 +265,25 @@ def _removal_obs(c, d, cg):
                  for x in names]
     o["comps_for"] = [[a, os, _wrap(lambda: list(R._removal_candidate_computations_for_agt(a, os, d)))]
                       for a, os in c.get("extra_orph", [])]
+    # the queries must not change the discovery state ...
+    o["view_after"] = _disc_view(d)
+    # ... so a second removal, of other agents, on the same Discovery is answered from the same state
+    dep2 = _second_departed(c)
+    orph2 = R._removal_orphaned_computations(dep2, d)
+    o["second"] = dict(
+        orphaned=list(orph2),
+        cand_agents=_wrap(lambda: sorted(R._removal_candidate_agents(dep2, d))),
+        info=[[x, _wrap(lambda: _canon_info(R._removal_candidate_computation_info(x, dep2, cg, d)))] for x in names],
+        for_agt=[[a, _wrap(lambda: list(R._removal_candidate_computations_for_agt(a, orph2, d))),
+                  _wrap(lambda: [[k, _canon_info(v)] for k, v in
+                                 R._removal_candidate_agt_info(a, dep2, cg, d).items()])]
+                 for a in c["agents"]])
     return o
+
+
+def _second_departed(c):
+    """another departed set for the same state: the agents that did not leave the first time (at most 2)"""
+    return [a for a in c["agents"] if a not in c["departed"]][:2]
 
 
 def _evals(constraint, names, rng, extra=True):
@@ -750,6 +771,20 @@ def _oracle(c, o, b_is_technical=False):
         m = _removal_oracle(c, o["removal"], b_is_technical)
         if m:
             return m
+        r = o["removal"]
+        if "view_after" in r:
+            exp = {k: sorted(set(v)) for k, v in c["replicas"].items()}
+            got = {k: sorted(v) for k, v in r["view_after"]["replicas"]}
+            hosted = {x for x, _ in c["host"]}
+            bad = sorted(k for k in hosted if got.get(k, []) != exp.get(k, []))
+            if bad:
+                return ("the removal queries changed the discovery state: replicas of %s are now %r, registered %r"
+                        % (bad[0], got.get(bad[0]), exp.get(bad[0])))
+        if "second" in r:
+            c2 = dict(c, departed=_second_departed(c))
+            m = _removal_oracle(c2, r["second"], b_is_technical)
+            if m:
+                return "second removal (agents %r) on the same discovery: %s" % (c2["departed"], m)
     for co in o.get("constraints", []):
         m = _constr_oracle(co, ctx=c if c["kind"] == "flow" else None)
         if m:
@@ -774,16 +809,11 @@ def classify(c, o, msg):
     Discovery.agent_computations, hence never orphaned"""
     if c["kind"] not in ("removal", "flow") or "flow_error" in o:
         return None
-    dep = set(c["departed"])
+    dep = set(c["departed"]) | set(_second_departed(c))
     if not any(comp.startswith("B") and agt in dep for comp, agt in c["host"]):
         return None
-    if _removal_oracle(c, o["removal"], b_is_technical=True) is None:
-        ok = all(_constr_oracle(co, ctx=c if c["kind"] == "flow" else None) is None
-                 for co in o.get("constraints", []))
-        if ok and c["kind"] == "flow" and _global_oracle(c, o, b_is_technical=True) is not None:
-            ok = False
-        if ok:
-            return FINDING_B
+    if _oracle(c, o, b_is_technical=True) is None:
+        return FINDING_B
     return None
 
 
